@@ -62,14 +62,14 @@ _mix = [0]
 
 
 def mixed_gen(rng, kind):
-    """mostly the uniform generator; every third history is cycle-seeking (C02's generator) or error-seeking (C03's), so that
+    """mostly the uniform generator; every other history is cycle-seeking (C02's generator) or error-seeking (C03's), so that
     the rejection paths of the reference model (cycle closed through a retyped / replaced edge, ...) are compared too"""
     from .c02 import CloseGen
     from .c03 import ErrGen
     _mix[0] += 1
-    if _mix[0] % 6 == 4:
+    if _mix[0] % 4 == 2:
         return CloseGen(rng, kind)
-    if _mix[0] % 6 == 5:
+    if _mix[0] % 4 == 3:
         return ErrGen(rng, kind)
     return H.Gen(rng, kind)
 
